@@ -36,3 +36,19 @@ Print Assumptions c12_accept_bounds.
 Theorem c12_load_total : forall bs, all_bytes bs = true -> exists r, load_bytes bs = OK r.
 Proof. exact load_total_bytes_lemma. Qed.
 Print Assumptions c12_load_total.
+
+From CCTZ Require Import ZoneZ ZoneRefineDefs ZoneRefine LoadCert.
+
+(* ACCEPTANCE ESTABLISHES THE CERTIFICATE: every structural clause of zone_ok holds for every
+   accepted byte string; with the property's own side condition on the data (gaps_wide) the whole
+   certificate holds, so the zone theorems of C01/C02/C03/C06/C10/C11/C14 apply to every accepted file *)
+Theorem c12_load_establishes_structure : forall bs z,
+  load_bytes bs = OK (Some z) -> zone_struct_ok z = true.
+Proof. exact load_establishes_structure_lemma. Qed.
+Print Assumptions c12_load_establishes_structure.
+
+Theorem c12_load_establishes_certificate : forall bs z, load_bytes bs = OK (Some z) ->
+  gaps_wide (zz_doff (abs_zone z)) (zz_tr (abs_zone z)) = true -> zone_ok z = true.
+Proof. exact load_establishes_certificate_lemma. Qed.
+Print Assumptions c12_load_establishes_certificate.
+
